@@ -116,7 +116,10 @@ def dumpNames (s : Schema) : List String :=
     s!"CLASS {e.name} {outStr (className (toIdent e.name))}" ::
     e.attrs.map (fun a =>
       let sup := a.redecl.map toIdent
-      s!"ACCN {e.name} {dictAttrName a} {outStr (accessorName sup (toIdent a.name))} {outStr (marker a.kind a.redecl.isSome)}{outStr (attrCName sup (toIdent a.name))}")) ++
+      let acc := outStr (accessorName sup (toIdent a.name))
+      let dv := outStr (marker a.kind a.redecl.isSome) ++ outStr (attrCName sup (toIdent a.name))
+      let dn := dictAttrName a
+      s!"ACCN {e.name} {dn} {acc} {dv}")) ++
   s.types.filterMap (fun t => match t.body with
     | .enum _ => some s!"ENUMC {t.name} {outStr (enumClassName (toIdent t.name))}"
     | _ => some s!"TYPEC {t.name} {outStr (className (toIdent t.name))}")
@@ -145,8 +148,10 @@ def handle (s : Schema) (line : String) : Option Schema :=
   | ["type", n, "alias", t] =>
     (parseTRef t).map (fun t => { s with types := s.types ++ [{ name := n, body := .alias t }] })
   | ["entity", n, ab, sups] =>
-    some { s with entities := s.entities ++ [{ name := n, abstract := ab == "1",
-                                              supers := if sups == "-" then [] else sups.splitOn "," }] }
+    let isAbs : Bool := ab == "1"
+    let sl : List String := if sups == "-" then [] else sups.splitOn ","
+    let e : Entity := { name := n, abstract := isAbs, supers := sl }
+    some { s with entities := s.entities ++ [e] }
   | ["attr", n, red, k, opt, inv, t] =>
     match parseTRef t, (match k with | "E" => some AKind.explicit | "D" => some .derived | "I" => some .inverse | _ => none) with
     | some t, some k =>
